@@ -528,6 +528,8 @@ def c05(ctx):
         from . import drv_refresh as dr
         behs = _export(ctx, 'MC_Refresh', 'MC_Refresh.cfg', [], sample=(6000 if thorough else 480), rng=rng)
         mat = dr.build_material()
+        for k, b in enumerate(behs):
+            b['cli'] = (k % 3 == 0)
         rrecs = core.pool_map(dr.run_scenario, [(b, mat, ctx.seed) for b in behs], chunksize=4)
         ctx.extra['refresh_scenarios'] = len(rrecs)
         ctx.sample({'direction': 'spec->code->spec (key refresh)', 'record': rrecs[7]})
